@@ -115,10 +115,13 @@ def run(command, timeout=30, withexitstatus=False, events=None,
             index = child.expect(patterns)
             if isinstance(child.after, child.allowed_string_types):
                 child_result_list.append(child.before + child.after)
-            else:
-                # child.after may have been a TIMEOUT or EOF,
-                # which we don't want appended to the list.
+            elif child.after is not TIMEOUT:
+                # child.after is EOF, which we don't want appended to the
+                # list: everything that was pending is in child.before.
                 child_result_list.append(child.before)
+            # A TIMEOUT event consumes nothing: the pending text stays in
+            # the buffer and is collected when it is consumed later (or
+            # below, if this event ends the run).
             if isinstance(responses[index], child.allowed_string_types):
                 child.send(responses[index])
             elif (isinstance(responses[index], types.FunctionType) or
@@ -128,6 +131,8 @@ def run(command, timeout=30, withexitstatus=False, events=None,
                 if isinstance(callback_result, child.allowed_string_types):
                     child.send(callback_result)
                 elif callback_result:
+                    if child.after is TIMEOUT:
+                        child_result_list.append(child.before)
                     break
             else:
                 raise TypeError("parameter `event' at index {index} must be "
